@@ -14,6 +14,7 @@
 //	            table: for every stock cipher c and n in {16,24,32,len(key)} that can be keyed with key[:n],
 //	            stock CFB of the message under iv[:bs] (salsa20: key[:32], nonce iv[:8] zero padded)
 //	         (6 name keyA ivA keyB ivB seed len)  two instances whose key or iv differ in one byte
+//	         (7 key iv ((name keylen) ...) seed len)  one secret given to many names in one process, in this order
 //	observed = (ctor_panicked run_panicked enc dec ((c n ref) ...)) | (panickedA encA panickedB encB) |
 //	           (panicked (out ...)) | (keystream enc dec) | (enc dec) | (panicked ((enc dec ref) ...)) | (panicked out)
 //
@@ -33,6 +34,7 @@ import (
 	"runtime"
 	"sync"
 	"time"
+	"unsafe"
 
 	"github.com/tjfoc/gmsm/sm4"
 	"golang.org/x/crypto/salsa20"
@@ -97,8 +99,8 @@ func run(in Sx) Sx {
 		Catch(func() {
 			a := xcipher.NewCrypt("salsa20", append([]byte(nil), key...), append([]byte(nil), iv...))
 			b := xcipher.NewCrypt("salsa20", append([]byte(nil), key...), append([]byte(nil), iv...))
-			enc = append([]byte{}, a.Encrypt(append([]byte(nil), msg...))...)
-			dec = append([]byte{}, b.Decrypt(append([]byte(nil), enc...))...)
+			enc = append([]byte{}, a.Encrypt(pm(msg, in.At(3).Uint64(), 0))...)
+			dec = append([]byte{}, b.Decrypt(pm(enc, in.At(3).Uint64(), 3))...)
 		})
 		return List(Bytes(ks), Bytes(enc), Bytes(dec))
 	case 2:
@@ -106,21 +108,23 @@ func run(in Sx) Sx {
 		var enc, dec []byte
 		Catch(func() {
 			a := xcipher.NewCrypt("none", nil, nil)
-			enc = append([]byte{}, a.Encrypt(append([]byte(nil), msg...))...)
-			dec = append([]byte{}, a.Decrypt(append([]byte(nil), enc...))...)
+			enc = append([]byte{}, a.Encrypt(pm(msg, in.At(1).Uint64(), 0))...)
+			dec = append([]byte{}, a.Decrypt(pm(enc, in.At(1).Uint64(), 3))...)
 		})
 		return List(Bytes(enc), Bytes(dec))
 	case 3:
 		return runFactory(in)
 	case 5:
 		return runSlicing(in)
+	case 7:
+		return runFamily(in)
 	case 6:
 		msg := lcg(in.At(6).Uint64(), in.At(7).AsInt())
 		one := func(key, iv []byte) (bool, []byte) {
 			var enc []byte
 			p, _ := Catch(func() {
 				c := xcipher.NewCrypt(in.At(1).AsString(), exact(key), exact(iv))
-				enc = append([]byte{}, c.Encrypt(exact(msg))...)
+				enc = append([]byte{}, c.Encrypt(pm(msg, in.At(6).Uint64(), 0))...)
 			})
 			return p, enc
 		}
@@ -154,6 +158,9 @@ func reference(name string, key, iv, msg []byte) ([]byte, error) {
 	want := make([]byte, len(msg))
 	switch name {
 	case "salsa20":
+		if len(key) < 32 {
+			return nil, fmt.Errorf("salsa20 needs a 32-byte key")
+		}
 		var k32 [32]byte
 		var nonce [8]byte
 		copy(k32[:], key)
@@ -205,7 +212,22 @@ func guard(d time.Duration, f func()) (failed bool) {
 	}
 }
 
+// place returns a copy of b whose first byte sits at address = mis (mod 8) and whose capacity
+// equals its length: packet bodies are sliced at arbitrary offsets of a read buffer, and the
+// 8-byte code path goes through unsafe 64-bit loads, so alignment is part of the input.  The
+// misalignment of every buffer is derived from the case's seed, hence reproducible on replay.
+func place(b []byte, mis int) []byte {
+	buf := make([]byte, len(b)+16)
+	off := (mis - int(uintptr(unsafe.Pointer(&buf[0]))%8) + 16) % 8
+	copy(buf[off:], b)
+	return buf[off : off+len(b) : off+len(b)]
+}
+
 // a copy whose capacity equals its length (key[:n] must fail when the key is too short)
+// pm places a message buffer at the misalignment derived from its seed (k distinguishes the
+// buffers of one case)
+func pm(b []byte, seed uint64, k int) []byte { return place(b, int((seed+uint64(k))%8)) }
+
 func exact(b []byte) []byte {
 	c := make([]byte, len(b))
 	copy(c, b)
@@ -270,14 +292,58 @@ func runSlicing(in Sx) Sx {
 	rp := false
 	if !cp {
 		rp, _ = Catch(func() {
-			enc = append([]byte{}, a.Encrypt(exact(msg))...)
-			dec = append([]byte{}, b.Decrypt(exact(enc))...)
+			enc = append([]byte{}, a.Encrypt(pm(msg, in.At(4).Uint64(), 0))...)
+			dec = append([]byte{}, b.Decrypt(pm(enc, in.At(4).Uint64(), 3))...)
 		})
 	}
 	if rp {
 		enc, dec = nil, nil
 	}
 	return List(Bool(cp), Bool(rp), Bytes(enc), Bytes(dec), ListOf(oracleTable(key, iv, msg)))
+}
+
+// one secret, many names, one process: all instances are created first (in the given
+// order), then a second set for decryption, then every one encrypts the same message
+func runFamily(in Sx) Sx {
+	key, iv, entries := in.At(1).AsBytes(), in.At(2).AsBytes(), in.At(3)
+	msg := lcg(in.At(4).Uint64(), in.At(5).AsInt())
+	n := entries.Len()
+	encI := make([]xcipher.BlockCryptor, n)
+	decI := make([]xcipher.BlockCryptor, n)
+	cp := make([]bool, n)
+	for pass := 0; pass < 2; pass++ {
+		for i := 0; i < n; i++ {
+			name, kl := entries.At(i).At(0).AsString(), entries.At(i).At(1).AsInt()
+			if kl > len(key) {
+				kl = len(key)
+			}
+			p := guard(20*time.Second, func() {
+				c := xcipher.NewCrypt(name, exact(key[:kl]), exact(iv))
+				if pass == 0 {
+					encI[i] = c
+				} else {
+					decI[i] = c
+				}
+			})
+			cp[i] = cp[i] || p
+		}
+	}
+	res := make([]Sx, n)
+	for i := 0; i < n; i++ {
+		var enc, dec []byte
+		rp := false
+		if !cp[i] {
+			rp = guard(20*time.Second, func() {
+				enc = append([]byte{}, encI[i].Encrypt(pm(msg, in.At(4).Uint64(), i))...)
+				dec = append([]byte{}, decI[i].Decrypt(pm(enc, in.At(4).Uint64(), i+3))...)
+			})
+		}
+		if rp {
+			enc, dec = nil, nil
+		}
+		res[i] = List(Bool(cp[i]), Bool(rp), Bytes(enc), Bytes(dec))
+	}
+	return List(ListOf(res), ListOf(oracleTable(key, iv, msg)))
 }
 
 func runFactory(in Sx) Sx {
@@ -297,10 +363,10 @@ func runFactory(in Sx) Sx {
 				panic(err)
 			}
 			refs[i] = ref
-			encs[i] = append([]byte{}, a.Encrypt(append([]byte(nil), msg...))...)
+			encs[i] = append([]byte{}, a.Encrypt(pm(msg, specs.At(i).At(0).Uint64(), 0))...)
 		}
 		for i := n - 1; i >= 0; i-- {
-			decs[i] = append([]byte{}, b.Decrypt(append([]byte(nil), encs[i]...))...)
+			decs[i] = append([]byte{}, b.Decrypt(pm(encs[i], specs.At(i).At(0).Uint64(), 3))...)
 		}
 	})
 	if panicked {
@@ -316,34 +382,44 @@ func runFactory(in Sx) Sx {
 func runToy(in Sx) Sx {
 	blk := &toyBlock{bs: in.At(1).AsInt(), mul: byte(in.At(2).AsInt()), key: in.At(3).AsBytes()}
 	iv := append([]byte(nil), in.At(4).AsBytes()...)
-	// exact-capacity scratch buffers (buf[:bs] must fail when the buffer is too short)
-	encbuf := make([]byte, len(in.At(5).AsBytes()))
-	copy(encbuf, in.At(5).AsBytes())
-	decbuf := make([]byte, len(in.At(6).AsBytes()))
-	copy(decbuf, in.At(6).AsBytes())
+	// exact-capacity scratch buffers (buf[:bs] must fail when the buffer is too short), at an
+	// alignment derived from the key
+	ka := 0
+	if len(blk.key) > 0 {
+		ka = int(blk.key[0])
+	}
+	encbuf := place(in.At(5).AsBytes(), ka%8)
+	decbuf := place(in.At(6).AsBytes(), (ka/8)%8)
 	ops := in.At(7)
 	var outs []Sx
 	var raw [][]byte
 	panicked := guard(60*time.Second, func() {
 		for i := 0; i < ops.Len(); i++ {
 			o := ops.At(i)
-			var data []byte
-			switch o.At(0).AsInt() {
-			case 0:
-				data = lcg(o.At(1).Uint64(), o.At(2).AsInt())
-				xcipher.VerifEncrypt(blk, iv, data, data, encbuf) // in place, as every cryptor does
+			kind := o.At(0).AsInt()
+			var src []byte
+			mis := int(o.At(1).Uint64() % 8)
+			switch kind % 3 {
+			case 0, 2:
+				src = place(lcg(o.At(1).Uint64(), o.At(2).AsInt()), mis)
 			case 1:
 				j := o.At(1).AsInt()
+				mis = (3*j + 1) % 8
 				if j >= 0 && j < len(raw) {
-					data = append([]byte{}, raw[j]...)
+					src = place(raw[j], mis)
 				}
-				xcipher.VerifDecrypt(blk, iv, data, data, decbuf)
-			default:
-				data = lcg(o.At(1).Uint64(), o.At(2).AsInt())
-				xcipher.VerifDecrypt(blk, iv, data, data, decbuf)
 			}
-			raw = append(raw, data)
-			outs = append(outs, Bytes(data))
+			dst := src // kinds 0..2: in place, as every cryptor does
+			if kind >= 3 {
+				dst = place(make([]byte, len(src)), (5*mis+2)%8) // kinds 3..5: separate destination
+			}
+			if kind%3 == 0 {
+				xcipher.VerifEncrypt(blk, iv, dst, src, encbuf)
+			} else {
+				xcipher.VerifDecrypt(blk, iv, dst, src, decbuf)
+			}
+			raw = append(raw, dst)
+			outs = append(outs, Bytes(dst))
 		}
 	})
 	if panicked {
@@ -446,6 +522,12 @@ func (g *genState) session(kind string, bs int, lens []int, ivlen, eblen, dblen 
 			g.out.Count("op:dec-raw")
 		}
 	}
+	for i, o := range ops {
+		if rng.Chance(1, 4) { // same call into a separate destination (kinds 3, 4, 5)
+			ops[i] = List(Int(o.At(0).Int64()+3), o.At(1), o.At(2))
+			g.out.Count("op:separate-dst")
+		}
+	}
 	in := List(Int(0), Int(int64(bs)), Int(int64(mul)), Bytes(key), Bytes(iv), Bytes(rng.Bytes(eblen)), Bytes(rng.Bytes(dblen)), ListOf(ops))
 	obs := run(in)
 	nontrivial := false
@@ -474,8 +556,7 @@ func (g *genState) session(kind string, bs int, lens []int, ivlen, eblen, dblen 
 	g.toyVsStdlib(in, obs)
 }
 
-// Go-side: the toy sessions against crypto/cipher CFB over the same toy block, and the
-// non-aliased call against the in-place one.
+// Go-side: the toy sessions against crypto/cipher CFB over the same toy block.
 func (g *genState) toyVsStdlib(in, obs Sx) {
 	if obs.At(0).AsBool() {
 		return
@@ -491,7 +572,7 @@ func (g *genState) toyVsStdlib(in, obs Sx) {
 		o := ops.At(i)
 		got := outs.At(i).AsBytes()
 		var src, want []byte
-		switch o.At(0).AsInt() {
+		switch o.At(0).AsInt() % 3 {
 		case 0:
 			src = lcg(o.At(1).Uint64(), o.At(2).AsInt())
 			want = make([]byte, len(src))
@@ -508,20 +589,6 @@ func (g *genState) toyVsStdlib(in, obs Sx) {
 		g.out.GoChecked++
 		if !bytes.Equal(got, want) {
 			violation(g.out, fmt.Sprintf("C16/stdlib-cfb/toy%d", bs), fmt.Sprintf("unrolled CFB over a toy %d-byte block differs from crypto/cipher CFB (op %d, length %d)", bs, i, len(src)), in)
-			return
-		}
-		// separate destination
-		dst := make([]byte, len(src))
-		p, _ := Catch(func() {
-			if o.At(0).AsInt() == 0 {
-				xcipher.VerifEncrypt(blk, iv, dst, src, make([]byte, bs))
-			} else {
-				xcipher.VerifDecrypt(blk, iv, dst, src, make([]byte, 2*bs))
-			}
-		})
-		g.out.GoChecked++
-		if p || !bytes.Equal(dst, want) {
-			violation(g.out, fmt.Sprintf("C16/separate-dst/toy%d", bs), "encrypt/decrypt into a separate destination differs from the in-place result", in)
 			return
 		}
 	}
@@ -581,13 +648,13 @@ func toySweepOne(out *acc, rng *Rng, bs int, wg *sync.WaitGroup) {
 			msg := lcg(seed, n)
 			in := List(Int(0), Int(int64(bs)), Int(int64(blk.mul)), Bytes(blk.key), Bytes(iv), Bytes(encbuf), Bytes(decbuf),
 				List(opEnc(seed, n), opDecOf(0)))
-			ct := append([]byte{}, msg...)
+			ct := place(msg, int(seed%8)) // the placements runToy uses for these two ops
 			want := make([]byte, n)
 			var back []byte
 			p, _ := Catch(func() {
 				xcipher.VerifEncrypt(blk, iv, ct, ct, encbuf)
 				stdcipher.NewCFBEncrypter(blk, iv[:bs]).XORKeyStream(want, msg)
-				back = append([]byte{}, ct...)
+				back = place(ct, 1)
 				xcipher.VerifDecrypt(blk, iv, back, back, decbuf)
 			})
 			out.GoChecked += 2
@@ -725,7 +792,85 @@ func gen(a Args, out *Out) {
 		}
 	}
 	slicingCases(a, out, rng.Fork())
+	familyCases(a, out, rng.Fork())
 	finishSweeps()
+}
+
+// one secret handed to every factory name inside one process, in several creation orders and
+// with several prefix lengths: every instance must be independent of what was created before
+func familyCases(a Args, out *Out, rng *Rng) {
+	names := []string{"aes-128", "aes-192", "aes-256", "", "sm4", "twofish", "3des", "xtea", "salsa20", "none"}
+	rounds := 3
+	if a.Thorough() {
+		rounds = 30
+	}
+	emit := func(key, iv []byte, entries []Sx, what string) {
+		in := List(Int(7), Bytes(key), Bytes(iv), ListOf(entries), Uint(uint64(rng.Intn(1<<16))), Int(int64(rng.Range(17, 40))))
+		obs := run(in)
+		out.Case("family", true, in, obs)
+		out.Count("family:" + what)
+		// Go-side: each instance against stock CFB for ITS OWN cipher, keyed as the harness's
+		// independent reference slices the secret
+		msg := lcg(in.At(4).Uint64(), in.At(5).AsInt())
+		for i, e := range entries {
+			name, kl := e.At(0).AsString(), e.At(1).AsInt()
+			var want []byte
+			var err error
+			if p, _ := Catch(func() { want, err = reference(name, exact(key[:kl]), iv, msg) }); p || err != nil {
+				continue // the secret is too short for this name
+			}
+			if name == "twofish" && kl != 16 && kl != 24 && kl != 32 {
+				continue
+			}
+			r := obs.At(0).At(i)
+			out.GoChecked++
+			nm := name
+			if nm == "" {
+				nm = "default"
+			}
+			switch {
+			case r.At(0).AsBool() || r.At(1).AsBool():
+				violation(out, "C16/factory/"+nm+"/shared-secret-panic", fmt.Sprintf("cipher %q keyed with the first %d bytes of a secret also given to other ciphers in the same process panics", name, kl), in)
+			case !bytes.Equal(r.At(2).AsBytes(), want):
+				violation(out, "C16/factory/"+nm+"/shared-secret", fmt.Sprintf("cipher %q keyed with the first %d bytes of a secret also given to other ciphers in the same process: ciphertext is not stock CFB for its own cipher", name, kl), in)
+			case !bytes.Equal(r.At(3).AsBytes(), msg):
+				violation(out, "C16/factory/"+nm+"/shared-secret-roundtrip", fmt.Sprintf("cipher %q, shared secret: decrypt(encrypt(m)) != m", name), in)
+			}
+		}
+	}
+	shuffle := func(l []Sx) []Sx {
+		c := append([]Sx(nil), l...)
+		for i := len(c) - 1; i > 0; i-- {
+			j := rng.Intn(i + 1)
+			c[i], c[j] = c[j], c[i]
+		}
+		return c
+	}
+	for r := 0; r < rounds; r++ {
+		key := rng.Bytes(32)
+		iv := rng.Bytes(rng.PickInt(16, 48))
+		var whole, prefixes []Sx
+		for _, nme := range names {
+			whole = append(whole, List(Str(nme), Int(32)))
+			for _, kl := range []int{16, 24, 32} {
+				prefixes = append(prefixes, List(Str(nme), Int(int64(kl))))
+			}
+		}
+		rev := append([]Sx(nil), whole...)
+		for i, j := 0, len(rev)-1; i < j; i, j = i+1, j-1 {
+			rev[i], rev[j] = rev[j], rev[i]
+		}
+		emit(key, iv, whole, "all-names-in-order")
+		emit(rng.Bytes(32), iv, rev, "all-names-reversed")
+		emit(rng.Bytes(32), iv, shuffle(whole), "all-names-shuffled")
+		emit(rng.Bytes(32), iv, shuffle(prefixes), "names-x-prefix-lengths-shuffled")
+		emit(rng.Bytes(32), iv, shuffle(prefixes), "names-x-prefix-lengths-shuffled")
+		// two names at a time (every ordered pair over the rounds)
+		i, j := rng.Intn(len(names)), rng.Intn(len(names))
+		emit(rng.Bytes(32), iv, []Sx{List(Str(names[i]), Int(32)), List(Str(names[j]), Int(32))}, "pair")
+		// a 40-byte secret: twofish refuses it, everything else takes its prefix
+		emit(rng.Bytes(40), iv, shuffle(append(append([]Sx(nil), whole...), List(Str("twofish"), Int(40)), List(Str("aes-128"), Int(40)))), "40-byte-secret")
+	}
 }
 
 // factory slicing: keys and ivs of every interesting length; pairs differing in one byte
@@ -744,7 +889,7 @@ func slicingCases(a Args, out *Out, rng *Rng) {
 			if a.Thorough() {
 				kl, il = keyLens[s%len(keyLens)], ivLens[(s/len(keyLens))%len(ivLens)]
 			} else if s < 4 {
-				kl, il = rng.PickInt(16, 24, 32, 40), rng.PickInt(16, 24, 48) // mostly accepted
+				kl, il = []int{16, 24, 32, 40}[s], rng.PickInt(16, 24, 48) // every key length a name may accept, iv long enough
 			}
 			in := List(Int(5), Str(name), Bytes(rng.Bytes(kl)), Bytes(rng.Bytes(il)), Uint(uint64(rng.Intn(1<<16))), Int(int64(rng.Range(17, 40))))
 			obs := run(in)
@@ -834,17 +979,21 @@ func toyLong(out *acc, rng *Rng, bs int, lens []int, tag string) {
 			List(opEnc(seed, n), opDecOf(0)))
 		want := make([]byte, n)
 		stdcipher.NewCFBEncrypter(blk, iv[:bs]).XORKeyStream(want, msg)
-		ct := append([]byte{}, msg...)
-		ct2 := make([]byte, n)
-		back := make([]byte, n)
-		back2 := make([]byte, n)
+		// the placements runToy uses for (0 seed n) (1 0 0), resp. (3 seed n) (4 0 0)
+		mis := int(seed % 8)
+		inSep := List(Int(0), Int(int64(bs)), Int(int64(blk.mul)), Bytes(blk.key), Bytes(iv), Bytes(encbuf), Bytes(decbuf),
+			List(List(Int(3), Uint(seed), Int(int64(n))), List(Int(4), Int(0), Int(0))))
+		ct := place(msg, mis)
+		ct2 := place(make([]byte, n), (5*mis+2)%8)
+		var back []byte
+		back2 := place(make([]byte, n), 7)
 		stdback := make([]byte, n)
 		p := guard(60*time.Second, func() {
 			xcipher.VerifEncrypt(blk, iv, ct, ct, encbuf)
-			xcipher.VerifEncrypt(blk, iv, ct2, msg, encbuf)
-			copy(back, ct)
+			xcipher.VerifEncrypt(blk, iv, ct2, place(msg, mis), encbuf)
+			back = place(ct, 1)
 			xcipher.VerifDecrypt(blk, iv, back, back, decbuf)
-			xcipher.VerifDecrypt(blk, iv, back2, want, decbuf)
+			xcipher.VerifDecrypt(blk, iv, back2, place(want, 1), decbuf)
 			stdcipher.NewCFBDecrypter(blk, iv[:bs]).XORKeyStream(stdback, ct)
 		})
 		out.GoChecked += 5
@@ -862,6 +1011,9 @@ func toyLong(out *acc, rng *Rng, bs int, lens []int, tag string) {
 			sig, what = "separate-dst", "decryption into a separate destination does not recover the message"
 		case !bytes.Equal(stdback, msg):
 			sig, what = "stdlib-cfb", "crypto/cipher CFB decrypter does not recover the message"
+		}
+		if sig == "separate-dst" {
+			in = inSep
 		}
 		if sig != "" {
 			out.violation(fmt.Sprintf("C16/%s/toy%d", sig, bs), fmt.Sprintf("toy %d-byte block, long message of %d bytes (%s): %s", bs, n, tag, what), in)
@@ -895,8 +1047,8 @@ func factoryLong(out *acc, rng *Rng, name string, lens []int, tag string) {
 		want, err := reference(name, key, iv, msg)
 		var ct, back []byte
 		p := guard(60*time.Second, func() {
-			ct = append([]byte{}, enc.Encrypt(append([]byte(nil), msg...))...)
-			back = append([]byte{}, dec.Decrypt(append([]byte(nil), ct...))...)
+			ct = append([]byte{}, enc.Encrypt(pm(msg, seed, 0))...)
+			back = append([]byte{}, dec.Decrypt(pm(ct, seed, 3))...)
 		})
 		out.GoChecked += 2
 		sig, what := "", ""
@@ -1080,7 +1232,7 @@ func factorySweepOne(out *acc, rng *Rng, name string, maxLen, rounds, part, part
 						continue
 					}
 					var got []byte
-					pn, _ := Catch(func() { got = dec.Decrypt(append([]byte(nil), p.ct...)) })
+					pn, _ := Catch(func() { got = dec.Decrypt(pm(p.ct, p.seed, 3)) })
 					out.GoChecked++
 					if pn || !bytes.Equal(got, p.msg) {
 						fail("roundtrip", "decrypt(encrypt(m)) != m (out of order, after losses)", p.seed, len(p.msg))
@@ -1094,7 +1246,7 @@ func factorySweepOne(out *acc, rng *Rng, name string, maxLen, rounds, part, part
 				seed := uint64(rng.Intn(1 << 16))
 				msg := lcg(seed, n)
 				var ct []byte
-				pn, _ := Catch(func() { ct = append([]byte{}, enc.Encrypt(append([]byte(nil), msg...))...) })
+				pn, _ := Catch(func() { ct = append([]byte{}, enc.Encrypt(pm(msg, seed, 0))...) })
 				out.GoChecked++
 				if pn {
 					fail("panic", "Encrypt panics", seed, n)
